@@ -22,12 +22,14 @@ import (
 	"bytes"
 	"crypto/sha1"
 	"encoding/gob"
+	"encoding/hex"
 	"encoding/json"
 	"fmt"
 	"math"
 	"os"
 	"os/exec"
 	"path/filepath"
+	"regexp"
 	"strconv"
 	"strings"
 	"syscall"
@@ -52,7 +54,7 @@ func init() {
 	}
 	reg.Register(&reg.Spec{ID: "C25",
 		Imports: "From Coq Require Import Floats.SpecFloat.\nFrom verif Require Import lib.Base model.C24_F64 model.C24_StoreSpec model.C25.",
-		Judge:   "C25.judge", Shard: 12, Run: run})
+		Judge:   "C25.judge", Shard: 15, Run: run})
 }
 
 
@@ -67,9 +69,25 @@ var cur = &interner{names: map[string]string{}}
 
 func resetIntern() { cur = &interner{names: map[string]string{}} }
 
+// noIntern: set in the child process, whose terms are re-interned by the parent.
+var noIntern bool
+
+var hxRe = regexp.MustCompile(`\(hx "([0-9a-f]*)"\)`)
+
+// reintern replaces the literal byte strings of a term by interned names.
+func reintern(term string) string {
+	return hxRe.ReplaceAllStringFunc(term, func(m string) string {
+		b, err := hex.DecodeString(hxRe.FindStringSubmatch(m)[1])
+		if err != nil {
+			return m
+		}
+		return S(string(b))
+	})
+}
+
 // S is the interned counterpart of coqfmt.Str.
 func S(s string) string {
-	if s == "" {
+	if s == "" || noIntern {
 		return Str(s)
 	}
 	if n, ok := cur.names[s]; ok {
@@ -79,6 +97,16 @@ func S(s string) string {
 	cur.names[s] = n
 	cur.order = append(cur.order, s)
 	return n
+}
+
+
+// typed list: an empty list carries its element type, so that no term of a
+// case needs an implicit argument to be inferred
+func tlist(ty string, items []string) string {
+	if len(items) == 0 {
+		return "(@nil " + ty + ")"
+	}
+	return List(items)
 }
 
 // wrap puts the let bindings of the interned strings around a term.
@@ -148,7 +176,7 @@ func (o op) coq() string {
 		for i, d := range o.BL {
 			l[i] = S(d)
 		}
-		return App("ODirs", List(l))
+		return App("ODirs", tlist("bytes", l))
 	}
 	panic("bad op " + o.K)
 }
@@ -175,17 +203,17 @@ func errKind(err error) string {
 func coqCmds(cmds []storedefs.Cmd) string {
 	l := make([]string, len(cmds))
 	for i, x := range cmds {
-		l[i] = Pair(S(x.Text), Z(int64(x.Seq)))
+		l[i] = App("pz", S(x.Text), Z(int64(x.Seq)))
 	}
-	return App("RCmds", List(l))
+	return App("RCmds", tlist("(bytes * Z)", l))
 }
 
 func coqDirs(ds []storedefs.Dir) string {
 	l := make([]string, len(ds))
 	for i, x := range ds {
-		l[i] = Pair(S(x.Path), F64(x.Score))
+		l[i] = App("pd", S(x.Path), F64(x.Score))
 	}
-	return App("RDirs", List(l))
+	return App("RDirs", tlist("dir", l))
 }
 
 // exec runs one operation; returns the Coq result term and a readable one.
@@ -268,6 +296,7 @@ type ack struct {
 // one write system call per line.  An operation is acknowledged only after the
 // store call has returned.
 func childMain(opsPath, db string) {
+	noIntern = true
 	f, err := os.Open(opsPath)
 	if err != nil {
 		os.Exit(3)
@@ -604,7 +633,7 @@ func oneCase(c *reg.Ctx, p *plan, km killMode, calibrate bool) {
 		}
 		acked := make([]string, len(res.acks))
 		for i, a := range res.acks {
-			acked[i] = a.Coq
+			acked[i] = reintern(a.Coq)
 			rd.Acked = append(rd.Acked, a.Obs)
 		}
 		totalAcks += len(res.acks)
@@ -625,7 +654,7 @@ func oneCase(c *reg.Ctx, p *plan, km killMode, calibrate bool) {
 		}
 		rd.Seq, rd.NCmds = dp.seq, dp.n
 		d.Rounds = append(d.Rounds, rd)
-		rounds = append(rounds, App("mkRound", List(opsCoq), List(acked), dp.coq))
+		rounds = append(rounds, App("mkRound", tlist("op", opsCoq), tlist("res", acked), dp.coq))
 		if r >= 2 || c.Rand.Intn(2) == 0 {
 			break
 		}
@@ -662,7 +691,7 @@ func oneCase(c *reg.Ctx, p *plan, km killMode, calibrate bool) {
 			g.cur = d.Rounds[len(d.Rounds)-1].Seq - 1
 			for _, o := range append([]op{{K: "add", Text: "after"}, {K: "seq"}}, g.ops(3+c.Rand.Intn(4))...) {
 				cq, obs := exec1(st, o)
-				tail = append(tail, Pair(o.coq(), cq))
+				tail = append(tail, App("orr", o.coq(), cq))
 				d.Tail = append(d.Tail, o.String()+"="+obs)
 			}
 		}()
@@ -670,7 +699,7 @@ func oneCase(c *reg.Ctx, p *plan, km killMode, calibrate bool) {
 	js, _ := json.Marshal(d)
 	sum := sha1.Sum(js)
 	if rc.Direct == "" {
-		rc.Coq = wrap(App("mkCase", N(p.seq0), List(rounds), List(tail)))
+		rc.Coq = wrap(App("mkCase", N(p.seq0), tlist("round", rounds), tlist("(op * res)", tail)))
 	}
 	rc.Desc = d
 	rc.Key = fmt.Sprintf("%x", sum[:8])
